@@ -1,14 +1,15 @@
-(** C12 - property theorems *)
+(** C12 - property theorems (statements only; proofs live in the library files) *)
 From Coq Require Import ZArith NArith PArith List Bool.
-From Cohdl Require Import Vhdl.Value Vhdl.Syntax Vhdl.Sem Equiv.Explore Equiv.VhdlTS.
+From Cohdl Require Import Vhdl.Value Vhdl.Syntax Vhdl.Sem Vhdl.DefAssign Vhdl.DeadVars Equiv.Explore Equiv.VhdlTS Equiv.RefTS Equiv.Monitor Equiv.StoreTS.
 Import ListNotations.
 
 (** per-tree obligation: OK from the checker means the elaborated hierarchical design and the
     inlined design have equal traces for every input sequence of every length *)
 Theorem C12_case_sound :
   forall d1 d2 mid alphabet fuel,
-    is_ok (dcheck d1 d2 mid alphabet fuel) = true ->
+    conc_all_ok (auto_Ts d1) d1 = true -> conc_all_ok (auto_Ts d2) d2 = true ->
+    is_ok (dcheck_s d1 d2 mid alphabet fuel) = true ->
     forall ins, Forall (fun i => In i alphabet) ins ->
-      traceA (vstep d1 mid) (power_up d1) ins = traceB (vstep d2 mid) (power_up d2) ins.
-Proof. exact dcheck_sound. Qed.
+      traceA (sstep d1 mid) (power_up_s d1) ins = traceA (sstep d2 mid) (power_up_s d2) ins.
+Proof. exact dcheck_s_sound. Qed.
 Print Assumptions C12_case_sound.
